@@ -1,4 +1,5 @@
 import MpVerif.C02.GenTieLex
+import MpVerif.C02.LemmasSites
 /-!
 # C02: structure ties — which guards, which bounds with which header field, which switch cases exist in the source
 
@@ -13,10 +14,10 @@ open MpVerif.CSem MpVerif.Gen MpVerif.Gen.NLGuards
 def sameSet (a b : List Int) : Bool := a.all (b.contains ·) && b.all (a.contains ·)
 
 /-- every `if (..) ReportError(..)` of the reader classes and every `ReadUInt(..)` bound the model knows about -/
-def knownGuards : List String := ["g_BinaryReader_ReadUInt__expected_unsigned_integer", "g_BinaryReaderBase_Read_i__unexpected_end_of_file", "g_NLReader_ReadUInt_u__integer_N_out_of_bounds", "g_NLReader_ReadUInt_u_u__integer_N_out_of_bounds", "g_NLReader_ReadNumArgs_i__too_few_arguments", "g_NLReader_ReadReference__expected_reference", "g_NLReader_ReadOpCode__invalid_opcode_N", "g_NLReader_ReadNumericExpr_i__too_few_slopes_in_piecewise_linear_term", "g_NLReader_ReadLogicalExpr_i__expected_count_expression", "g_NLReader_ReadBounds__integer_N_out_of_bounds", "g_NLReader_ReadColumnSizes__expected_N", "g_NLReader_ReadColumnSizes__invalid_column_offset", "g_NLReader_ReadInitialValues__too_many_initial_values", "g_NLReader_Read__invalid_function_type", "g_NLReader_Read__invalid_suffix_kind", "g_TextReader_ReadString__expected", "g_TextReader_ReadString__unexpected_end_of_file_in_string", "g_TextReader_ReadString__expected_newline", "g_TextReader_ReadName__expected_name", "g_TextReader_ReadHeader__too_many_options", "g_TextReader_ReadHeader__integer_overflow", "g_TextReader_ReadHeader__integer_overflow_2", "g_TextReader_ReadHeader__unknown_floating_point_arithmetic_kind", "g_TextReader_ReadIntWithoutSign_i__number_is_too_big", "g_TextReader_ReadIntWithoutSign_u__number_is_too_big", "g_TextReader_ReadIntWithoutSign_ul__number_is_too_big", "g_TextReader_ReadIntWithoutSign_us__number_is_too_big", "g_TextReader_ReadIntWithoutSign_i__number_is_too_big_2", "g_TextReader_ReadIntWithoutSign_u__number_is_too_big_2", "g_TextReader_ReadIntWithoutSign_ul__number_is_too_big_2", "g_TextReader_ReadIntWithoutSign_us__number_is_too_big_2", "g_TextReader_DoReadOptionalInt_i__number_is_too_big", "g_TextReader_DoReadOptionalInt_l__number_is_too_big", "g_TextReader_DoReadOptionalInt_s__number_is_too_big", "g_TextReader_ReadUInt_i__integer_overflow", "g_TextReader_ReadUInt__expected_unsigned_integer", "g_TextReader_ReadInt__expected_integer", "g_TextReader_ReadDouble__expected_double", "bound_NLReader_DoReadReference_1_ub", "bound_NLReader_Read_1_ub", "bound_NLReader_Read_2_ub", "bound_NLReader_Read_3_ub", "bound_NLReader_Read_4_lb", "bound_NLReader_Read_4_ub", "bound_NLReader_Read_5_ub", "bound_NLReader_ReadInitialValues_1_ub", "bound_NLReader_ReadLinearExpr_1_ub", "bound_NLReader_ReadLinearExpr_2_lb", "bound_NLReader_ReadLinearExpr_2_ub", "bound_NLReader_ReadLinearExpr_i_1_ub", "bound_NLReader_ReadNumericExpr_c_b_1_ub", "bound_NLReader_ReadSuffixValues_i_i_1_ub", "bound_NLReader_ReadSuffix_i_1_lb", "bound_NLReader_ReadSuffix_i_1_ub", "bound_TextReader_ReadHeader_1_ub", "bound_TextReader_ReadHeader_2_ub", "bound_TextReader_ReadHeader_3_ub", "bound_TextReader_ReadHeader_4_ub", "bound_TextReader_ReadHeader_5_ub"]
+def knownGuards : List String := ["g_BinaryReader_ReadUInt__expected_unsigned_integer", "g_BinaryReaderBase_Read_i__unexpected_end_of_file", "g_NLReader_ReadUInt_u__integer_N_out_of_bounds", "g_NLReader_ReadUInt_u_u__integer_N_out_of_bounds", "g_NLReader_ReadNumArgs_i__too_few_arguments", "g_NLReader_ReadReference__expected_reference", "g_NLReader_ReadOpCode__invalid_opcode_N", "g_NLReader_ReadNumericExpr_i__too_few_slopes_in_piecewise_linear_term", "g_NLReader_ReadLogicalExpr_i__expected_count_expression", "g_NLReader_ReadBounds__integer_N_out_of_bounds", "g_NLReader_ReadColumnSizes__expected_N", "g_NLReader_ReadColumnSizes__invalid_column_offset", "g_NLReader_ReadInitialValues__too_many_initial_values", "g_NLReader_Read__invalid_function_type", "g_NLReader_Read__invalid_suffix_kind", "g_TextReader_ReadString__expected", "g_TextReader_ReadString__unexpected_end_of_file_in_string", "g_TextReader_ReadString__expected_newline", "g_TextReader_ReadName__expected_name", "g_TextReader_ReadHeader__too_many_options", "g_TextReader_ReadHeader__integer_overflow", "g_TextReader_ReadHeader__integer_overflow_2", "g_TextReader_ReadHeader__unknown_floating_point_arithmetic_kind", "g_TextReader_ReadIntWithoutSign_i__number_is_too_big", "g_TextReader_ReadIntWithoutSign_u__number_is_too_big", "g_TextReader_ReadIntWithoutSign_ul__number_is_too_big", "g_TextReader_ReadIntWithoutSign_us__number_is_too_big", "g_TextReader_ReadIntWithoutSign_i__number_is_too_big_2", "g_TextReader_ReadIntWithoutSign_u__number_is_too_big_2", "g_TextReader_ReadIntWithoutSign_ul__number_is_too_big_2", "g_TextReader_ReadIntWithoutSign_us__number_is_too_big_2", "g_TextReader_DoReadOptionalInt_i__number_is_too_big", "g_TextReader_DoReadOptionalInt_l__number_is_too_big", "g_TextReader_DoReadOptionalInt_s__number_is_too_big", "g_TextReader_ReadUInt_i__integer_overflow", "g_TextReader_ReadUInt__expected_unsigned_integer", "g_TextReader_ReadInt__expected_integer", "g_TextReader_ReadDouble__expected_double", "bound_NLReader_DoReadReference_1_ub", "bound_NLReader_Read_1_ub", "bound_NLReader_Read_2_ub", "bound_NLReader_Read_3_ub", "bound_NLReader_Read_4_lb", "bound_NLReader_Read_4_ub", "bound_NLReader_Read_5_ub", "bound_NLReader_ReadInitialValues_1_ub", "bound_NLReader_ReadLinearExpr_1_ub", "bound_NLReader_ReadLinearExpr_2_lb", "bound_NLReader_ReadLinearExpr_2_ub", "bound_NLReader_ReadLinearExpr_i_1_ub", "bound_NLReader_ReadNumericExpr_c_b_1_ub", "bound_NLReader_ReadSuffixValues_i_i_1_ub", "bound_NLReader_ReadSuffix_i_1_lb", "bound_NLReader_ReadSuffix_i_1_ub", "bound_TextReader_ReadHeader_1_ub", "bound_TextReader_ReadHeader_2_ub", "bound_TextReader_ReadHeader_3_ub", "bound_TextReader_ReadHeader_4_ub", "bound_TextReader_ReadHeader_5_ub", "site_NLReader_DoReadReference_1_ub", "site_NLReader_Read_1_ub", "site_NLReader_Read_2_ub", "site_NLReader_Read_3_ub", "site_NLReader_Read_4_lb", "site_NLReader_Read_4_ub", "site_NLReader_Read_5_ub", "site_NLReader_ReadLinearExpr_2_ub", "site_NLReader_ReadLinearExpr_i_1_ub", "site_NLReader_ReadNumericExpr_c_b_1_ub", "items_AlgebraicConHandler", "items_ConHandler", "items_ObjHandler", "items_ProblemHandler", "items_VarHandler", "assign_num_vars_and_exprs"]
 
 /-- which source variables / header fields / calls each of them reads (parameter order of the generated definition) -/
-def knownParams : List (String × List String) := [("g_BinaryReader_ReadUInt__expected_unsigned_integer", ["v_value"]), ("g_BinaryReaderBase_Read_i__unexpected_end_of_file", ["pdiff_end_ptr", "v_length"]), ("g_NLReader_ReadUInt_u__integer_N_out_of_bounds", ["v_value", "v_ub"]), ("g_NLReader_ReadUInt_u_u__integer_N_out_of_bounds", ["v_value", "v_lb", "v_ub"]), ("g_NLReader_ReadNumArgs_i__too_few_arguments", ["v_num_args", "v_min_args"]), ("g_NLReader_ReadReference__expected_reference", ["c_ReadChar"]), ("g_NLReader_ReadOpCode__invalid_opcode_N", ["v_opcode", "k_MAX_OPCODE"]), ("g_NLReader_ReadNumericExpr_i__too_few_slopes_in_piecewise_linear_term", ["v_num_slopes"]), ("g_NLReader_ReadLogicalExpr_i__expected_count_expression", ["v_c", "m_kind", "k_COUNT"]), ("g_NLReader_ReadBounds__integer_N_out_of_bounds", ["v_var_index", "m_num_vars"]), ("g_NLReader_ReadColumnSizes__expected_N", ["m_num_vars", "c_ReadUInt"]), ("g_NLReader_ReadColumnSizes__invalid_column_offset", ["v_size", "v_prev_size"]), ("g_NLReader_ReadInitialValues__too_many_initial_values", ["v_num_values", "c_num_items"]), ("g_NLReader_Read__invalid_function_type", ["v_type", "k_NUMERIC", "k_SYMBOLIC"]), ("g_NLReader_Read__invalid_suffix_kind", ["v_info", "k_SUFFIX_KIND_MASK", "k_FLOAT"]), ("g_TextReader_ReadString__expected", ["deref_ptr"]), ("g_TextReader_ReadString__unexpected_end_of_file_in_string", ["deref_ptr", "peq_ptr_end"]), ("g_TextReader_ReadString__expected_newline", ["deref_ptr"]), ("g_TextReader_ReadName__expected_name", ["deref_ptr"]), ("g_TextReader_ReadHeader__too_many_options", ["m_num_ampl_options", "k_MAX_AMPL_OPTIONS"]), ("g_TextReader_ReadHeader__integer_overflow", ["m_num_logical_cons", "m_num_algebraic_cons"]), ("g_TextReader_ReadHeader__integer_overflow_2", ["m_num_compl_conds", "m_num_nl_compl_conds"]), ("g_TextReader_ReadHeader__unknown_floating_point_arithmetic_kind", ["v_arith_kind", "k_LAST"]), ("g_TextReader_ReadIntWithoutSign_i__number_is_too_big", ["v_result", "v_c"]), ("g_TextReader_ReadIntWithoutSign_u__number_is_too_big", ["v_result", "v_c"]), ("g_TextReader_ReadIntWithoutSign_ul__number_is_too_big", ["v_result", "v_c"]), ("g_TextReader_ReadIntWithoutSign_us__number_is_too_big", ["v_result", "v_c"]), ("g_TextReader_ReadIntWithoutSign_i__number_is_too_big_2", ["v_result"]), ("g_TextReader_ReadIntWithoutSign_u__number_is_too_big_2", ["v_result"]), ("g_TextReader_ReadIntWithoutSign_ul__number_is_too_big_2", ["v_result"]), ("g_TextReader_ReadIntWithoutSign_us__number_is_too_big_2", ["v_result"]), ("g_TextReader_DoReadOptionalInt_i__number_is_too_big", ["deref_ptr", "v_result"]), ("g_TextReader_DoReadOptionalInt_l__number_is_too_big", ["deref_ptr", "v_result"]), ("g_TextReader_DoReadOptionalInt_s__number_is_too_big", ["deref_ptr", "v_result"]), ("g_TextReader_ReadUInt_i__integer_overflow", ["v_accumulator", "v_value"]), ("g_TextReader_ReadUInt__expected_unsigned_integer", ["c_ReadIntWithoutSign"]), ("g_TextReader_ReadInt__expected_integer", ["c_DoReadOptionalInt"]), ("g_TextReader_ReadDouble__expected_double", ["peq_ptr_start"]), ("bound_NLReader_DoReadReference_1_ub", ["m_num_vars_and_exprs"]), ("bound_NLReader_Read_1_ub", ["m_num_algebraic_cons"]), ("bound_NLReader_Read_2_ub", ["m_num_logical_cons"]), ("bound_NLReader_Read_3_ub", ["m_num_objs"]), ("bound_NLReader_Read_4_lb", ["m_num_vars"]), ("bound_NLReader_Read_4_ub", ["m_num_vars_and_exprs"]), ("bound_NLReader_Read_5_ub", ["m_num_funcs"]), ("bound_NLReader_ReadInitialValues_1_ub", ["c_num_items"]), ("bound_NLReader_ReadLinearExpr_1_ub", ["c_num_items"]), ("bound_NLReader_ReadLinearExpr_2_lb", []), ("bound_NLReader_ReadLinearExpr_2_ub", ["m_num_vars"]), ("bound_NLReader_ReadLinearExpr_i_1_ub", ["m_num_vars"]), ("bound_NLReader_ReadNumericExpr_c_b_1_ub", ["m_num_funcs"]), ("bound_NLReader_ReadSuffixValues_i_i_1_ub", ["v_num_items"]), ("bound_NLReader_ReadSuffix_i_1_lb", []), ("bound_NLReader_ReadSuffix_i_1_ub", ["v_num_items"]), ("bound_TextReader_ReadHeader_1_ub", ["v_max_vars"]), ("bound_TextReader_ReadHeader_2_ub", ["v_max_vars"]), ("bound_TextReader_ReadHeader_3_ub", ["v_max_vars"]), ("bound_TextReader_ReadHeader_4_ub", ["v_max_vars"]), ("bound_TextReader_ReadHeader_5_ub", ["v_max_vars"])]
+def knownParams : List (String × List String) := [("g_BinaryReader_ReadUInt__expected_unsigned_integer", ["v_value"]), ("g_BinaryReaderBase_Read_i__unexpected_end_of_file", ["pdiff_end_ptr", "v_length"]), ("g_NLReader_ReadUInt_u__integer_N_out_of_bounds", ["v_value", "v_ub"]), ("g_NLReader_ReadUInt_u_u__integer_N_out_of_bounds", ["v_value", "v_lb", "v_ub"]), ("g_NLReader_ReadNumArgs_i__too_few_arguments", ["v_num_args", "v_min_args"]), ("g_NLReader_ReadReference__expected_reference", ["c_ReadChar"]), ("g_NLReader_ReadOpCode__invalid_opcode_N", ["v_opcode", "k_MAX_OPCODE"]), ("g_NLReader_ReadNumericExpr_i__too_few_slopes_in_piecewise_linear_term", ["v_num_slopes"]), ("g_NLReader_ReadLogicalExpr_i__expected_count_expression", ["v_c", "m_kind", "k_COUNT"]), ("g_NLReader_ReadBounds__integer_N_out_of_bounds", ["v_var_index", "m_num_vars"]), ("g_NLReader_ReadColumnSizes__expected_N", ["m_num_vars", "c_ReadUInt"]), ("g_NLReader_ReadColumnSizes__invalid_column_offset", ["v_size", "v_prev_size"]), ("g_NLReader_ReadInitialValues__too_many_initial_values", ["v_num_values", "c_num_items"]), ("g_NLReader_Read__invalid_function_type", ["v_type", "k_NUMERIC", "k_SYMBOLIC"]), ("g_NLReader_Read__invalid_suffix_kind", ["v_info", "k_SUFFIX_KIND_MASK", "k_FLOAT"]), ("g_TextReader_ReadString__expected", ["deref_ptr"]), ("g_TextReader_ReadString__unexpected_end_of_file_in_string", ["deref_ptr", "peq_ptr_end"]), ("g_TextReader_ReadString__expected_newline", ["deref_ptr"]), ("g_TextReader_ReadName__expected_name", ["deref_ptr"]), ("g_TextReader_ReadHeader__too_many_options", ["m_num_ampl_options", "k_MAX_AMPL_OPTIONS"]), ("g_TextReader_ReadHeader__integer_overflow", ["m_num_logical_cons", "m_num_algebraic_cons"]), ("g_TextReader_ReadHeader__integer_overflow_2", ["m_num_compl_conds", "m_num_nl_compl_conds"]), ("g_TextReader_ReadHeader__unknown_floating_point_arithmetic_kind", ["v_arith_kind", "k_LAST"]), ("g_TextReader_ReadIntWithoutSign_i__number_is_too_big", ["v_result", "v_c"]), ("g_TextReader_ReadIntWithoutSign_u__number_is_too_big", ["v_result", "v_c"]), ("g_TextReader_ReadIntWithoutSign_ul__number_is_too_big", ["v_result", "v_c"]), ("g_TextReader_ReadIntWithoutSign_us__number_is_too_big", ["v_result", "v_c"]), ("g_TextReader_ReadIntWithoutSign_i__number_is_too_big_2", ["v_result"]), ("g_TextReader_ReadIntWithoutSign_u__number_is_too_big_2", ["v_result"]), ("g_TextReader_ReadIntWithoutSign_ul__number_is_too_big_2", ["v_result"]), ("g_TextReader_ReadIntWithoutSign_us__number_is_too_big_2", ["v_result"]), ("g_TextReader_DoReadOptionalInt_i__number_is_too_big", ["deref_ptr", "v_result"]), ("g_TextReader_DoReadOptionalInt_l__number_is_too_big", ["deref_ptr", "v_result"]), ("g_TextReader_DoReadOptionalInt_s__number_is_too_big", ["deref_ptr", "v_result"]), ("g_TextReader_ReadUInt_i__integer_overflow", ["v_accumulator", "v_value"]), ("g_TextReader_ReadUInt__expected_unsigned_integer", ["c_ReadIntWithoutSign"]), ("g_TextReader_ReadInt__expected_integer", ["c_DoReadOptionalInt"]), ("g_TextReader_ReadDouble__expected_double", ["peq_ptr_start"]), ("bound_NLReader_DoReadReference_1_ub", ["m_num_vars_and_exprs"]), ("bound_NLReader_Read_1_ub", ["m_num_algebraic_cons"]), ("bound_NLReader_Read_2_ub", ["m_num_logical_cons"]), ("bound_NLReader_Read_3_ub", ["m_num_objs"]), ("bound_NLReader_Read_4_lb", ["m_num_vars"]), ("bound_NLReader_Read_4_ub", ["m_num_vars_and_exprs"]), ("bound_NLReader_Read_5_ub", ["m_num_funcs"]), ("bound_NLReader_ReadInitialValues_1_ub", ["c_num_items"]), ("bound_NLReader_ReadLinearExpr_1_ub", ["c_num_items"]), ("bound_NLReader_ReadLinearExpr_2_lb", []), ("bound_NLReader_ReadLinearExpr_2_ub", ["m_num_vars"]), ("bound_NLReader_ReadLinearExpr_i_1_ub", ["m_num_vars"]), ("bound_NLReader_ReadNumericExpr_c_b_1_ub", ["m_num_funcs"]), ("bound_NLReader_ReadSuffixValues_i_i_1_ub", ["v_num_items"]), ("bound_NLReader_ReadSuffix_i_1_lb", []), ("bound_NLReader_ReadSuffix_i_1_ub", ["v_num_items"]), ("bound_TextReader_ReadHeader_1_ub", ["v_max_vars"]), ("bound_TextReader_ReadHeader_2_ub", ["v_max_vars"]), ("bound_TextReader_ReadHeader_3_ub", ["v_max_vars"]), ("bound_TextReader_ReadHeader_4_ub", ["v_max_vars"]), ("bound_TextReader_ReadHeader_5_ub", ["v_max_vars"]), ("site_NLReader_DoReadReference_1_ub", ["m_num_vars_and_exprs"]), ("site_NLReader_Read_1_ub", ["m_num_algebraic_cons"]), ("site_NLReader_Read_2_ub", ["m_num_logical_cons"]), ("site_NLReader_Read_3_ub", ["m_num_objs"]), ("site_NLReader_Read_4_lb", ["m_num_vars"]), ("site_NLReader_Read_4_ub", ["m_num_vars_and_exprs"]), ("site_NLReader_Read_5_ub", ["m_num_funcs"]), ("site_NLReader_ReadLinearExpr_2_ub", ["m_num_vars"]), ("site_NLReader_ReadLinearExpr_i_1_ub", ["m_num_vars"]), ("site_NLReader_ReadNumericExpr_c_b_1_ub", ["m_num_funcs"]), ("items_AlgebraicConHandler", ["m_num_algebraic_cons"]), ("items_ConHandler", ["m_num_algebraic_cons", "m_num_logical_cons"]), ("items_ObjHandler", ["m_num_objs"]), ("items_ProblemHandler", []), ("items_VarHandler", ["m_num_vars"]), ("assign_num_vars_and_exprs", ["m_num_vars", "m_num_common_exprs_in_both", "m_num_common_exprs_in_cons", "m_num_common_exprs_in_objs", "m_num_common_exprs_in_single_cons", "m_num_common_exprs_in_single_objs"])]
 
 theorem C02_gen_all_guards_known : guardNames = knownGuards := rfl
 theorem C02_gen_guard_params : paramTable = knownParams := rfl
@@ -56,52 +57,69 @@ theorem C02_gen_logical_classes :
     sameSet cases_NLReader_ReadLogicalExpr_i ([Opcodes.kNOT, Opcodes.kFIRST_BINARY_LOGICAL, Opcodes.kFIRST_RELATIONAL, Opcodes.kFIRST_LOGICAL_COUNT,
       Opcodes.kIMPLICATION, Opcodes.kFIRST_ITERATED_LOGICAL, Opcodes.kFIRST_PAIRWISE].map (fun (k : Nat) => (k : Int))) = true := by decide
 
-theorem conv_tU_id (x : Nat) (h : x < 4294967296) : conv tU (x : Int) = x := by
-  simp only [conv, CTy.wrap, tU, Bool.false_eq_true, ↓reduceIte]; omega
+/-! ### index bounds: the call-site functions the model's reader uses
 
-theorem C02_gen_bound_NLReader_DoReadReference_1_ub (x : Nat) (h : x ≤ 2147483647) : bound_NLReader_DoReadReference_1_ub x = .ret (x : Int) := by
-  unfold bound_NLReader_DoReadReference_1_ub; rw [conv_tU_id x (by omega)]
-theorem C02_gen_bound_NLReader_Read_1_ub (x : Nat) (h : x ≤ 2147483647) : bound_NLReader_Read_1_ub x = .ret (x : Int) := by
-  unfold bound_NLReader_Read_1_ub; rw [conv_tU_id x (by omega)]
-theorem C02_gen_bound_NLReader_Read_2_ub (x : Nat) (h : x ≤ 2147483647) : bound_NLReader_Read_2_ub x = .ret (x : Int) := by
-  unfold bound_NLReader_Read_2_ub; rw [conv_tU_id x (by omega)]
-theorem C02_gen_bound_NLReader_Read_3_ub (x : Nat) (h : x ≤ 2147483647) : bound_NLReader_Read_3_ub x = .ret (x : Int) := by
-  unfold bound_NLReader_Read_3_ub; rw [conv_tU_id x (by omega)]
-theorem C02_gen_bound_NLReader_Read_4_lb (x : Nat) (h : x ≤ 2147483647) : bound_NLReader_Read_4_lb x = .ret (x : Int) := by
-  unfold bound_NLReader_Read_4_lb; rw [conv_tU_id x (by omega)]
-theorem C02_gen_bound_NLReader_Read_4_ub (x : Nat) (h : x ≤ 2147483647) : bound_NLReader_Read_4_ub x = .ret (x : Int) := by
-  unfold bound_NLReader_Read_4_ub; rw [conv_tU_id x (by omega)]
-theorem C02_gen_bound_NLReader_Read_5_ub (x : Nat) (h : x ≤ 2147483647) : bound_NLReader_Read_5_ub x = .ret (x : Int) := by
-  unfold bound_NLReader_Read_5_ub; rw [conv_tU_id x (by omega)]
-theorem C02_gen_bound_NLReader_ReadInitialValues_1_ub (x : Nat) (h : x ≤ 2147483647) : bound_NLReader_ReadInitialValues_1_ub x = .ret (x : Int) := by
-  unfold bound_NLReader_ReadInitialValues_1_ub; rw [conv_tU_id x (by omega)]
-theorem C02_gen_bound_NLReader_ReadLinearExpr_1_ub (x : Nat) (h : x ≤ 2147483647) : bound_NLReader_ReadLinearExpr_1_ub x = .ret (x : Int) := by
-  unfold bound_NLReader_ReadLinearExpr_1_ub; rw [conv_tU_id x (by omega)]
-theorem C02_gen_bound_NLReader_ReadLinearExpr_2_lb : bound_NLReader_ReadLinearExpr_2_lb = .ret 1 := by decide
-/-- `m_num_vars + 1u`: unsigned, cannot overflow for a count that fits `int` -/
-theorem C02_gen_bound_NLReader_ReadLinearExpr_2_ub (x : Nat) (h : x ≤ 2147483647) : bound_NLReader_ReadLinearExpr_2_ub x = .ret ((x + 1 : Nat) : Int) := by
-  unfold bound_NLReader_ReadLinearExpr_2_ub
-  rw [conv_tU_id x (by omega)]
-  simp only [cadd, arith, CTy.wrap, tU, Bool.false_eq_true, ↓reduceIte]
+`Gen.NLGuards.site_*` select the header field by a projection in generated code; the model's reader calls them
+(`Site.*`, ModelSites.lean), and the consistency proof uses `Site.*_le` / `Site.V_index`.  The theorems below say
+what they evaluate to for every header the reader accepts (`C02_header_index_space`: all counts ≤ INT_MAX). -/
+
+theorem siteVal_conv_small (x : Nat) (h : x ≤ 2147483647) : siteVal (.ret (conv tU (x : Int))) = x := by
+  rw [siteVal_conv]; omega
+
+theorem C02_gen_site_C (h : Header) (hr : h.num_algebraic_cons ≤ 2147483647) : Site.ubC h = h.num_algebraic_cons := by
+  unfold Site.ubC; exact siteVal_conv_small _ hr
+theorem C02_gen_site_L (h : Header) (hr : h.num_logical_cons ≤ 2147483647) : Site.ubL h = h.num_logical_cons := by
+  unfold Site.ubL; exact siteVal_conv_small _ hr
+theorem C02_gen_site_O (h : Header) (hr : h.num_objs ≤ 2147483647) : Site.ubO h = h.num_objs := by
+  unfold Site.ubO; exact siteVal_conv_small _ hr
+theorem C02_gen_site_F (h : Header) (hr : h.num_funcs ≤ 2147483647) : Site.ubF h = h.num_funcs := by
+  unfold Site.ubF; exact siteVal_conv_small _ hr
+theorem C02_gen_site_call (h : Header) (hr : h.num_funcs ≤ 2147483647) : Site.ubCall h = h.num_funcs := by
+  unfold Site.ubCall; exact siteVal_conv_small _ hr
+theorem C02_gen_site_ref (h : Header) (hr : h.num_vars_and_exprs ≤ 2147483647) : Site.ubRef h = h.num_vars_and_exprs := by
+  unfold Site.ubRef; exact siteVal_conv_small _ hr
+theorem C02_gen_site_V (h : Header) (hr : h.num_vars_and_exprs ≤ 2147483647) :
+    Site.lbV h = h.num_vars ∧ Site.ubV h = h.num_vars_and_exprs := by
+  have : h.num_vars ≤ 2147483647 := by simp only [Header.num_vars_and_exprs] at hr; omega
+  unfold Site.lbV Site.ubV
+  exact ⟨siteVal_conv_small _ this, siteVal_conv_small _ hr⟩
+theorem C02_gen_site_termVar (h : Header) (hr : h.num_vars ≤ 2147483647) : Site.ubTermVar h = h.num_vars := by
+  unfold Site.ubTermVar; exact siteVal_conv_small _ hr
+theorem C02_gen_site_numTerms (h : Header) (hr : h.num_vars ≤ 2147483647) :
+    Site.lbTerms = 1 ∧ Site.ubTerms h = h.num_vars + 1 := by
+  refine ⟨Site.lbTerms_eq, ?_⟩
+  unfold Site.ubTerms
+  have e : conv tU (h.num_vars : Int) = (h.num_vars : Int) := by
+    simp only [conv, CTy.wrap, tU, Bool.false_eq_true, ↓reduceIte]; omega
+  simp only [site_NLReader_ReadLinearExpr_2_ub, bound_NLReader_ReadLinearExpr_2_ub, hdrOf, cadd, arith, e]
+  simp only [tU, CTy.wrap, Bool.false_eq_true, ↓reduceIte, siteVal]
+  omega
+
+/-- `num_vars_and_exprs_ = num_vars + Σ common-expression counts` in `int`: no overflow for an accepted header -/
+theorem C02_gen_num_vars_and_exprs (h : Header) (hr : h.num_vars_and_exprs ≤ 2147483647) :
+    assign_num_vars_and_exprs (hdrOf h) = .ret (h.num_vars_and_exprs : Int) := by
+  simp only [Header.num_vars_and_exprs, Header.num_common_exprs] at hr
+  unfold assign_num_vars_and_exprs
+  simp only [hdrOf, cadd]
+  rw [arith_tI' _ (by omega) (by omega)]; simp only [Outcome.bind_ret]
+  rw [arith_tI' _ (by omega) (by omega)]; simp only [Outcome.bind_ret]
+  rw [arith_tI' _ (by omega) (by omega)]; simp only [Outcome.bind_ret]
+  rw [arith_tI' _ (by omega) (by omega)]; simp only [Outcome.bind_ret]
+  rw [arith_tI' _ (by omega) (by omega)]
+  simp only [Header.num_vars_and_exprs, Header.num_common_exprs]
   congr 1; omega
-theorem C02_gen_bound_NLReader_ReadLinearExpr_i_1_ub (x : Nat) (h : x ≤ 2147483647) : bound_NLReader_ReadLinearExpr_i_1_ub x = .ret (x : Int) := by
-  unfold bound_NLReader_ReadLinearExpr_i_1_ub; rw [conv_tU_id x (by omega)]
-theorem C02_gen_bound_NLReader_ReadNumericExpr_c_b_1_ub (x : Nat) (h : x ≤ 2147483647) : bound_NLReader_ReadNumericExpr_c_b_1_ub x = .ret (x : Int) := by
-  unfold bound_NLReader_ReadNumericExpr_c_b_1_ub; rw [conv_tU_id x (by omega)]
-theorem C02_gen_bound_NLReader_ReadSuffixValues_i_i_1_ub (x : Nat) (h : x ≤ 2147483647) : bound_NLReader_ReadSuffixValues_i_i_1_ub x = .ret (x : Int) := by
-  unfold bound_NLReader_ReadSuffixValues_i_i_1_ub; rw [conv_tU_id x (by omega)]
-theorem C02_gen_bound_NLReader_ReadSuffix_i_1_lb : bound_NLReader_ReadSuffix_i_1_lb = .ret 1 := by decide
-/-- `v_num_items + 1u`: unsigned, cannot overflow for a count that fits `int` -/
-theorem C02_gen_bound_NLReader_ReadSuffix_i_1_ub (x : Nat) (h : x ≤ 2147483647) : bound_NLReader_ReadSuffix_i_1_ub x = .ret ((x + 1 : Nat) : Int) := by
-  unfold bound_NLReader_ReadSuffix_i_1_ub
-  rw [conv_tU_id x (by omega)]
-  simp only [cadd, arith, CTy.wrap, tU, Bool.false_eq_true, ↓reduceIte]
-  congr 1; omega
-theorem C02_gen_bound_TextReader_ReadHeader_1_ub (x : Int) : bound_TextReader_ReadHeader_1_ub x = .ret x := rfl
-theorem C02_gen_bound_TextReader_ReadHeader_2_ub (x : Int) : bound_TextReader_ReadHeader_2_ub x = .ret x := rfl
-theorem C02_gen_bound_TextReader_ReadHeader_3_ub (x : Int) : bound_TextReader_ReadHeader_3_ub x = .ret x := rfl
-theorem C02_gen_bound_TextReader_ReadHeader_4_ub (x : Int) : bound_TextReader_ReadHeader_4_ub x = .ret x := rfl
-theorem C02_gen_bound_TextReader_ReadHeader_5_ub (x : Int) : bound_TextReader_ReadHeader_5_ub x = .ret x := rfl
+
+/-- the item counts of the five item handlers (`num_items()`), as the checker's `suffixItems` / the model's counts -/
+theorem C02_gen_items_var (h : Header) : items_VarHandler (hdrOf h) = .ret (h.suffixItems 0 : Nat) := rfl
+theorem C02_gen_items_obj (h : Header) : items_ObjHandler (hdrOf h) = .ret (h.suffixItems 2 : Nat) := rfl
+theorem C02_gen_items_problem (h : Header) : items_ProblemHandler (hdrOf h) = .ret (h.suffixItems 3 : Nat) := rfl
+theorem C02_gen_items_algcon (h : Header) : items_AlgebraicConHandler (hdrOf h) = .ret (h.num_algebraic_cons : Int) := rfl
+theorem C02_gen_items_con (h : Header) (hr : h.num_algebraic_cons + h.num_logical_cons ≤ 2147483647) :
+    items_ConHandler (hdrOf h) = .ret (h.suffixItems 1 : Nat) := by
+  unfold items_ConHandler
+  simp only [hdrOf, cadd]
+  rw [arith_tI' _ (by omega) (by omega)]
+  simp [Header.suffixItems]
 
 /-! ### the header parse as a script of reads
 
@@ -182,15 +200,50 @@ theorem char_cne (c : UInt8) (k : Nat) (hk : k < 128) :
 
 /-- `ReadString`: `*ptr_ != ':'` -/
 theorem C02_gen_expected_colon (c : UInt8) :
-    g_TextReader_ReadString__expected (asChar c) = .ret (bi (c != 58)) := by
+    g_TextReader_ReadString__expected (asChar c) = .ret (bi (G.notColon c)) := by
   unfold g_TextReader_ReadString__expected
   exact congrArg Outcome.ret (char_cne c 58 (by omega))
 
 /-- `ReadString`: `*ptr_ != '\n'` after the string -/
 theorem C02_gen_expected_newline_after_string (c : UInt8) :
-    g_TextReader_ReadString__expected_newline (asChar c) = .ret (bi (c != 10)) := by
+    g_TextReader_ReadString__expected_newline (asChar c) = .ret (bi (G.notNewline c)) := by
   unfold g_TextReader_ReadString__expected_newline
   exact congrArg Outcome.ret (char_cne c 10 (by omega))
+
+theorem asChar_zero (c : UInt8) : asChar c = 0 ↔ c = 0 := by
+  have := asChar_eq c 0 (by omega)
+  simpa using this
+
+/-- `ReadName`: `*ptr_ == '\\n' || !*ptr_` -/
+theorem C02_gen_noName (c : UInt8) :
+    g_TextReader_ReadName__expected_name (asChar c) = .ret (bi (G.noName c)) := by
+  unfold g_TextReader_ReadName__expected_name G.noName
+  rw [conv_tI_char, conv_tI_small 10 (by omega) (by omega)]
+  have h10 := asChar_eq c 10 (by omega)
+  have h0 := asChar_zero c
+  by_cases a : c = 10
+  · subst a
+    have e10 : asChar 10 = 10 := by decide
+    simp [cor, ceq, bi, e10]
+  · have na : ¬ asChar c = 10 := fun e => a (by simpa using h10.mp e)
+    by_cases b : c = 0
+    · subst b
+      have e0 : asChar 0 = 0 := by decide
+      simp [cor, ceq, cnot, tobool, bi, e0, Outcome.bind]
+    · have nb : ¬ asChar c = 0 := fun e => b (h0.mp e)
+      simp [cor, ceq, cnot, tobool, bi, na, nb, a, b, Outcome.bind]
+
+/-- `ReadString`: `!c && ptr_ == end_` -/
+theorem C02_gen_eofInString (c : UInt8) (atEnd : Bool) :
+    g_TextReader_ReadString__unexpected_end_of_file_in_string (asChar c) (bi atEnd) = .ret (bi (G.eofInString c atEnd)) := by
+  unfold g_TextReader_ReadString__unexpected_end_of_file_in_string G.eofInString
+  have h0 := asChar_zero c
+  by_cases b : c = 0
+  · subst b
+    have e0 : asChar 0 = 0 := by decide
+    cases atEnd <;> simp [cand, cnot, tobool, bi, e0, Outcome.bind]
+  · have nb : ¬ asChar c = 0 := fun e => b (h0.mp e)
+    cases atEnd <;> simp [cand, cnot, tobool, bi, nb, b]
 
 /-- `ReadUInt` / `ReadInt`: the error is reported iff the optional read found no digit -/
 theorem C02_gen_expected_uint (found : Bool) :
